@@ -145,7 +145,7 @@ RULES = {
 
 # corruptions that are not a plain attribute replacement (documented cross-field / structural rules)
 SPECIALS = {
-    "composeinfo": ["final-with-label", "child-arch-outside-parent", "misaligned-uid", "layered-variant-release-type"],
+    "composeinfo": ["final-with-label", "child-arch-outside-parent", "misaligned-uid", "layered-variant-release-type", "refused-add-left-behind"],
     "images": ["additional-variants-on-non-unified", "additional-variants-not-a-list"],
-    "treeinfo": ["misaligned-uid", "absolute-image-path", "unreferenced-platform", "absolute-checksum-path", "partial-media"],
+    "treeinfo": ["misaligned-uid", "absolute-image-path", "unreferenced-platform", "absolute-checksum-path", "partial-media", "refused-add-left-behind"],
 }
